@@ -457,6 +457,20 @@ def protocol_cases():
                 if not t.disconnecting or p._authenticated:
                     return 'a %d-byte line (%r...%r) delivered in %s: connection %s, authenticated=%r' % (
                         len(ln), ln[:16], ln[-4:], how, 'closed' if t.disconnecting else 'not closed', p._authenticated)
+        # ... also when no line end ever comes and the pending bytes end in carriage returns (only ONE trailing CR may be the first
+        # half of a line end): more than 16 KiB pending closes the connection
+        for tail in (b'\r' * 17000, b'x' * 9000 + b'\r' * 9000, b'\r' * 40000):
+            for step in (10 ** 6, 1000):
+                stream = b'\0AUTH ' + tail
+                p = bus.BusProtocol()
+                p.factory = F
+                t = StringTransport()
+                p.makeConnection(t)
+                for i in range(0, len(stream), step):
+                    if not t.disconnecting:
+                        p.dataReceived(stream[i:i + step])
+                if not t.disconnecting:
+                    return '%d bytes without a line end, the last %d of them carriage returns (reads of %d bytes): the connection is kept open' % (len(stream) - 1, len(tail) - len(tail.rstrip(b'\r')), step)
         # ... and a line of exactly 16 KiB is not 'longer than 16 KiB': it is answered (ERROR for an unknown command)
         p = bus.BusProtocol()
         p.factory = F
